@@ -61,6 +61,24 @@ type WorkerOut struct {
 	FirstSeed    uint64                 `json:"first_seed"`
 	LastSeed     uint64                 `json:"last_seed"`
 	Exhaustive   map[string]interface{} `json:"exhaustive,omitempty"`
+	Nondet       []string               `json:"nondeterminism,omitempty"` // a violation that did not re-execute identically: harness trouble, never a VIOLATION
+}
+
+// firstLogDiff names the first event-log line at which two executions of one plan differ.
+func firstLogDiff(a, b []string) string {
+	for i := 0; i < len(a) || i < len(b); i++ {
+		var x, y string
+		if i < len(a) {
+			x = a[i]
+		}
+		if i < len(b) {
+			y = b[i]
+		}
+		if x != y {
+			return fmt.Sprintf("line %d: %q vs %q", i, truncate(x, 200), truncate(y, 200))
+		}
+	}
+	return "logs identical"
 }
 
 type ReplayFile struct {
@@ -351,6 +369,19 @@ func absorb(t *testing.T, job *Job, out *WorkerOut, found map[string]*Found, sta
 		}
 		f = &Found{Sig: v.Sig(), Prop: v.Prop, Detail: v.Detail, Seed: plan.Seed, Profile: plan.Profile, Count: 1, From: len(plan.Steps), Steps: len(plan.Steps)}
 		found[v.Sig()] = f
+		// determinism gate: one plan is one execution. A violation that does not re-execute with the same signature and the
+		// same event log is not a replayable counterexample; it is reported as harness trouble (exit 2), never as a VIOLATION.
+		if re := Execute(t, plan); !hasSig(re, v.Prop, v.Sig()) || re.LogHash != res.LogHash {
+			delete(found, v.Sig())
+			d := fmt.Sprintf("seed %d profile %s: %s did not re-execute identically (reproduced=%v, %s)", plan.Seed, plan.Profile, v.Sig(), hasSig(re, v.Prop, v.Sig()), firstLogDiff(res.Log, re.Log))
+			out.Nondet = append(out.Nondet, d)
+			if job.ReplayDir != "" {
+				b, _ := json.MarshalIndent(map[string]interface{}{"what": d, "plan": plan, "log_first": res.Log, "log_second": re.Log}, "", " ")
+				_ = os.MkdirAll(job.ReplayDir, 0o755)
+				_ = os.WriteFile(filepath.Join(job.ReplayDir, fmt.Sprintf("nondeterminism-%s-%d.json", job.Property, plan.Seed)), b, 0o644)
+			}
+			continue
+		}
 		mp, mres := plan, res
 		if job.Minimise {
 			mp = minimise(t, plan, v.Prop, v.Sig(), 400)
